@@ -220,6 +220,17 @@ func init() {
 		},
 		Post: crossDiff("avx2", "sse"),
 	}
+	plans["C14"] = &Plan{
+		Level: "exploration",
+		Rule: "valid documents (structure-random with duplicate/empty/escaped keys and white-space runs, skipper-stress siblings containing brackets and quotes, objects with 1-40 members over 28 key names = duplicates on both sides of the 16-pair index threshold, nesting to depth 400) x ~12 paths each (existing at every depth, missing key, empty key, prefix/extension/case variant of a key, index = len, index >> len, wrong kind, through scalars, empty path). Every path goes through Get, GetFromString, GetCopyFromString, GetWithOptions under all 8 SearchOptions, Node.GetByPath and step-wise Get/Index from a lazy, a Load()ed and a LoadAll()ed root; oracle = reference parser with first-occurrence lookup: existence and Raw text must match. Located nodes: Interface/InterfaceUseNumber vs encoding/json on the span, MarshalJSON token stream, typed accessors, Len, Values/Properties/ForEach order and keys, Array/Map(+UseNode) sizes, IndexPair; whole documents: Preorder event stream vs reference tree walk. distinct = hash(document)",
+		Assumptions: stdAssumptions, MinEvals: 5000, MinEvalsThorough: 300000,
+		Runs: func(string) []*Run {
+			return []*Run{
+				{Name: "avx2", Flavor: "plain", NBatch: 16, TimeoutS: n(900, 3000)},
+				{Name: "sse", Flavor: "plain", NBatch: n(2, 8), Env: []string{"SONIC_MODE=noavx2"}, TimeoutS: n(900, 3000)},
+			}
+		},
+	}
 	plans["C17"] = &Plan{
 		Level: "fault_enumeration",
 		Rule: "decoder: inputs = concatenations of 1-5 values (scalars incl. top-level numbers, strings with escapes, containers) with every separator shape (none, spaces, newlines, > 4096 spaces) and trailing classes (clean, white space, garbage byte, stray closer, truncated value). For small inputs (<= 40 bytes): the whole input, EOF-with-data, EVERY single cut, every pair of cuts with an interleaved empty read (inputs <= 26 bytes), and a reader FAILURE at EVERY byte position (whole reads and 1-byte reads) are enumerated; larger inputs (values crossing 4096/8192/16384-byte buffers): whole, 1-byte reads and 6 sampled chunkings with cuts at buffer boundaries, empty reads, EOF-with-data and a failure position. Oracle: encoding/json.Decoder driven by the very same reader behaviour: identical value sequence, identical terminal class (io.EOF / error / the injected error by identity), Decode never returns nil without InputOffset advancing (logical progress, bounded by len+3 calls). encoder: random values, Writer failing at EVERY write index, short writes, repeated Encode; bytes must equal Marshal (+newline unless disabled). distinct = hash(input bytes / expected bytes)",
